@@ -134,7 +134,7 @@ def run(ctx):
         bad = [f["path"] for f in owners if not f.get("derived") and f.get("name") not in allowed]
         bad += [f["path"] for f in ctors if INL.is_helper(f) and not INL.owners_of(F, f)]
         ctx.check(bool(ctors) and not bad, "E1", "who-constructs:" + what, "%s values are constructed only in %s (and derived Clone/Copy)" % (what, "/".join(allowed)), "",
-                  how=str(sorted({f.get("name") for f in ctors})), why=str(bad))
+                  how=str(sorted({str(f.get("name")) for f in ctors})), why=str(bad))
         a = F.adts.get(adt + "<'_>")
         ctx.check(all(not f["pub"] for f in a["fields"]), "E1", "private-fields:" + what, "all fields of %s are private" % what, a.get("span", ""), how="private", why=str(a["fields"]))
     # ---- E2 next()
